@@ -704,7 +704,36 @@ def extract(path):
         if isinstance(node, ast.Assign) and isinstance(node.targets[0], ast.Name) \
                 and node.targets[0].id.startswith("TLS_VERSION") and isinstance(node.value, ast.Constant):
             consts[node.targets[0].id] = node.value.value
+    # data flow into certificate validation: which expressions verify_certificate() receives and
+    # which methods of Context ever assign the configuration attributes it reads
+    vc_args = []
+    for steps in fns.values():
+        for st in steps:
+            if st["act"]["k"] == "verifyCert":
+                vc_args.append(sorted(st["act"]["args"].items()))
+    if len(vc_args) != 1:
+        raise ExtractError(f"expected exactly one verify_certificate() call in the handlers, found {len(vc_args)}")
+    cfg = ["_server_name", "_cadata", "_cafile", "_capath", "_verify_mode"]
+    writers = {a: [] for a in cfg}
+    for name, m in methods.items():
+        for x in ast.walk(m):
+            tgts = []
+            if isinstance(x, ast.Assign):
+                tgts = x.targets
+            elif isinstance(x, (ast.AugAssign, ast.AnnAssign)):
+                tgts = [x.target]
+            elif isinstance(x, ast.Delete):
+                tgts = x.targets
+            elif isinstance(x, ast.Call) and dotted(x.func) in ("setattr", "delattr") and x.args \
+                    and dotted(x.args[0]) == "self":
+                bad(x, f"{name}: setattr/delattr on self hides attribute writes")
+            for t in tgts:
+                for leaf in ast.walk(t):
+                    if isinstance(leaf, ast.Attribute) and dotted(leaf.value) == "self" and leaf.attr in writers \
+                            and name not in writers[leaf.attr]:
+                        writers[leaf.attr].append(name)
     return {
+        "verify_cert_args": vc_args[0], "config_writers": [[a, writers[a]] for a in cfg],
         "source": os.path.relpath(path, os.path.dirname(os.path.dirname(os.path.dirname(path)))),
         "enums": enums, "alerts": alerts, "tables": tables, "defaults": defaults, "consts": consts,
         "dispatch": dispatch, "dispatch_order": order, "post_dispatch": post, "pre_dispatch": [],
